@@ -14,8 +14,8 @@ import (
 
 var c12Alphabet = DefaultAlphabetWith(
 	[][]kwOpt{{{"format", "date"}, {"format", "date-time"}, {"format", "byte"}, {"format", "int32"}, {"format", "nosuchformat"}}},
-	[]kwOpt{{"pattern", "["}},
-)
+	[]kwOpt{{"pattern", "["}, {"required", []any{"a", "a"}}, {"required", []any{"a", "b", "a"}}},
+).withAppls([]applForm{{"properties", "propA-ro"}, {"properties", "propA-wo"}, {"properties", "propAB-ro"}})
 
 func c12Values(size int) []any {
 	vs := ValueSet(size)
@@ -181,6 +181,38 @@ func c12Judge(r *core.Run, s *openapi3.Schema, v any, order int) (out []c12Findi
 			}
 		}
 	}
+	// the request and response readings: within each, the modes must agree with that reading's default mode
+	for _, rd := range []struct {
+		name string
+		opt  openapi3.SchemaValidationOption
+	}{{"asRequest", openapi3.VisitAsRequest()}, {"asResponse", openapi3.VisitAsResponse()}} {
+		rbase, rerr, p := run(rd.name, func() (bool, error) { e := s.VisitJSON(cloneJSON(v), rd.opt); return e == nil, e })
+		if p {
+			continue
+		}
+		checkPtr(rd.name, rerr)
+		for _, ff := range []bool{false, true} {
+			for _, me := range []bool{false, true} {
+				if !ff && !me {
+					continue
+				}
+				name := fmt.Sprintf("%s,ff=%v,multi=%v", rd.name, ff, me)
+				ok, err, p := run(name, func() (bool, error) {
+					e := s.VisitJSON(cloneJSON(v), append(c12Opts(ff, me, 0), rd.opt)...)
+					return e == nil, e
+				})
+				if p {
+					continue
+				}
+				if ok != rbase {
+					out = append(out, c12Finding{"verdict-differs:" + name, map[string]any{"mode": name, rd.name + "_default_accepts": rbase, "mode_accepts": ok}})
+				}
+				if !ff {
+					checkPtr(name, err)
+				}
+			}
+		}
+	}
 	if ok, _, p := run("IsMatching", func() (bool, error) { return s.IsMatching(cloneJSON(v)), nil }); !p && ok != base {
 		out = append(out, c12Finding{"verdict-differs:IsMatching", map[string]any{"default_accepts": base, "IsMatching": ok}})
 	}
@@ -248,7 +280,7 @@ func init() {
 		},
 		Bounds: func(tier string) map[string]any {
 			b, d, vs := c12Budget(tier)
-			return map[string]any{"keyword_instances": b, "nesting_depth": d, "values": len(c12Values(vs)), "discriminator_schemas": len(c12DiscNames), "discriminator_values": len(c12DiscValues()), "modes": 14}
+			return map[string]any{"keyword_instances": b, "nesting_depth": d, "values": len(c12Values(vs)), "discriminator_schemas": len(c12DiscNames), "discriminator_values": len(c12DiscValues()), "modes": 22}
 		},
 		MinOutcomes: 2,
 		DevBound:    func(string) int { return 1 },
